@@ -59,10 +59,11 @@ def observe (H : Bytes → Nat) (f : Filter) (qs : List Bytes) (items : Option (
   if !specOk then "model-spec-mismatch" else
   let z := f.zipMatchAny H qs
   let h := f.hashMatchAny H qs
-  -- where the two strategies disagree (a stream whose N does not cover the data) MatchAny's
-  -- heuristic choice is not part of the observation
-  let a := if z == h then bit (f.matchAny H qs) else "*"
-  s!"m={bitsStr m} zip={bit z} hash={bit h} any={a}"
+  match items with
+  | none =>
+    -- deserialised stream (N may not cover the data): only "what the zip finds the hash finds too"
+    s!"m={bitsStr m} zip={bit z} hz={bit (!z || h)}"
+  | some _ => s!"m={bitsStr m} zip={bit z} hash={bit h} any={bit (f.matchAny H qs)}"
 
 /-- read up to `max` Golomb-Rice values (no running sum), as `VerifReadAll` does -/
 def readAll (p : Nat) : Nat → List Bool → List Nat
